@@ -78,3 +78,18 @@ NOT_APPLICABLE = {
     "C19": "check not built yet in this revision (planned, partial: DESIGN.md §2 C19)",
     "C20": "ZstdLineLender is FFI (zstd C library), GzipLineLender a full inflate state machine, LineLender over a 3-byte Cursor reached 8 GB in 6 min (BufRead::read_line: memchr, String growth, UTF-8 validation); only trivial adapters are encodable",
 }
+
+
+def select_for_seed(pid, tier, seed, names):
+    """Quick tier: rotating sub-families (residual families etc.) chosen by VERIF_SEED.
+    Harness names containing `::rot<k>of<n>_` are kept only when seed % n == k."""
+    import re
+    if tier != "quick":
+        return [n for n in names]
+    out = []
+    for n in names:
+        m = re.search(r"::rot(\d+)of(\d+)_", n)
+        if m and (seed % int(m.group(2))) != int(m.group(1)):
+            continue
+        out.append(n)
+    return out
